@@ -16,8 +16,9 @@ Add(evs) == log' = log \o evs
 BMark == IF Turn.rep THEN << <<1, 0>> >> ELSE << <<t, 0>> >>
 
 (* verdict as the rail flow perceives it: a raising action yields None *)
+Silent == Cfg.shape = "csilent"                         \* rails that block without uttering a refusal
 Blocks(v) == \/ v = "R"
-             \/ (v = "F" /\ Cfg.shape = "check")       \* `if not $allowed` with None -> refuses
+             \/ (v \in {"F", "G"} /\ Cfg.shape \in {"check", "csilent"})       \* `if not $allowed` with None -> refuses
                                                          \* (shape "inv": `if $bad` with None -> passes)
 RECURSIVE OutPass(_, _, _)
 (* output rails over a text with bot markers nm, starting at rail j: <<events, blocked>> *)
@@ -38,7 +39,7 @@ BotSay(src, nm, flag, ov) ==
              THEN << <<>>, IF FixedFlag THEN FALSE ELSE TRUE >>
              ELSE << utter, FALSE >>)
      ELSE LET r == OutPass(0, nm, ov) IN
-          IF r[2] THEN << r[1] \o refuse, IF FixedFlag THEN FALSE ELSE TRUE >>   \* rail aborted: flag never reset
+          IF r[2] THEN << r[1] \o (IF Silent THEN <<>> ELSE refuse), IF FixedFlag THEN FALSE ELSE TRUE >>   \* rail aborted
           ELSE << r[1] \o utter, FALSE >>
 
 BeginTurn ==
@@ -53,7 +54,7 @@ InRail ==
      ELSE LET v == Turn.inv[i + 1]
               a == Ev("act", i, VCode(v), "in", << <<t, 0>> >>, <<>>)
           IN IF Blocks(v)
-               THEN LET r == BotSay("refusal", <<>>, inprog, Turn.outv) IN
+               THEN LET r == IF Silent THEN << <<>>, inprog >> ELSE BotSay("refusal", <<>>, inprog, Turn.outv) IN
                     Add(<<a>> \o r[1]) /\ inprog' = r[2] /\ pc' = "reply" /\ UNCHANGED i
                ELSE Add(<<a>>) /\ i' = i + 1 /\ pc' = pc /\ UNCHANGED inprog
   /\ UNCHANGED <<script, t>>
